@@ -222,6 +222,9 @@ func schedRun(c *engine.Ctx, r *engine.Report) {
 		if c.Thorough() {
 			bound++
 		}
+		if len(sc.Getters) > 3 || (sc.Stop && len(sc.Getters) > 2) {
+			bound = 2 // thorough-only scenarios with nine and more threads
+		}
 		cfg := registryConfig(sc, c, bound)
 		res := engine.RunDFS(cfg)
 		r.Eval(int64(res.Executions))
@@ -252,7 +255,9 @@ func schedRun(c *engine.Ctx, r *engine.Report) {
 			}
 			r.Violate("registry:"+kind, fmt.Sprintf("registry scenario {%s}, schedule %v: %s", sc, v.Choices, v.Message), registryReplay{SchedPhase: true, Scenario: sc, Choices: v.Choices, Bound: bound})
 		}
-		if len(sc.Getters) == 2 && (c.Thorough() || !sc.Stop && len(sc.Pre) == 0) {
+		// (with a pre-registered name or the stop thread the unbounded pass does
+		// not finish within the thorough budget: > 2*10^7 executions)
+		if len(sc.Getters) == 2 && !sc.Stop && len(sc.Pre) == 0 {
 			pres := engine.RunPORDFS(registryConfig(sc, c, -1))
 			r.Eval(int64(pres.Executions))
 			r.Traces += int64(pres.Executions)
